@@ -7,6 +7,9 @@ VERIF = os.path.dirname(os.path.dirname(os.path.abspath(__file__)))
 
 # id -> (technique, level text, level note, design ref)
 CHECKS = {
+    "C15": ("differential oracle over compilations: artefact hashes (bytecode listing, WASM bytes, state layout, outputs) back to back, after random compilation histories, and in fresh processes",
+            "Each program is compiled repeatedly in one process (also after up to 50 other programs) and in 4-8 fresh processes with their own hash seeds; the four artefacts named by the property are hashed and must be identical everywhere.",
+            "FNV-1a hash + length stand in for byte equality; a fresh process gets fresh RandomState keys.", "DESIGN.md §3 C15"),
     "C12": ("counter-equality monitor at quiescent points (Machine.closures / Machine.heap after sample W+N vs W+2N) + handle-validity hooks, over generated closure-heavy programs, shipped sources and mutations",
             "Each program runs W+2N samples on the VM (and WASM for the record); the numbers of live closures and heap objects after W+N and W+2N samples must be equal, and every retain/release/load/store through a handle that is no longer live, or closure dereference through an invalid key, is flagged by cfg-guarded hooks (slot-map versions decide staleness exactly).",
             "Steady state within W = N samples; the four recorded leak classes (closure as argument, closure returned from a call, boxed variants, rescheduled tasks) are kept out of general exploration by generator quarantines and a list of shipped files.", "DESIGN.md §3 C12"),
